@@ -194,6 +194,37 @@ def run(db: DB, rep: Report) -> None:
     bc = hw.methods.get("__build_component")
     if bl is None or bc is None:
         raise AnalysisError("Hardware.__build_level/__build_component not found")
+    # hop 0: the count stored for a level is computed within that level's own iteration
+    ai = db.func("teaal.parse.arch.Architecture.__init__")
+    stores = [n for n in walk_no_nested(ai.node) if isinstance(n, ast.Assign) and
+              isinstance(n.targets[0], ast.Subscript) and isinstance(n.targets[0].slice, ast.Constant)
+              and n.targets[0].slice.value == "num"]
+    if not stores:
+        raise AnalysisError("Architecture.__init__ no longer stores a level's instance count")
+    for st in stores:
+        loop = None
+        p_ = st.parent
+        while p_ is not ai.node:
+            if isinstance(p_, (ast.For, ast.While)):
+                loop = p_
+                break
+            p_ = p_.parent
+        names = sorted(paths.load_names(st.value) - {"int", "str", "len"})
+        stale = []
+        if loop is not None:
+            for nm in names:
+                def is_def(n, nm=nm):
+                    return isinstance(n, (ast.Assign, ast.AnnAssign)) and any(
+                        isinstance(t, ast.Name) and t.id == nm
+                        for t in (n.targets if isinstance(n, ast.Assign) else [n.target]))
+                bad = paths.must_precede(loop.body, is_def, lambda n: n is st)
+                if bad:
+                    stale.append(nm)
+        rep.check("M3", loop is not None and not stale, db.loc(st), ai.short, "hop:level-count:" + norm(st.value),
+                  "level count %s is determined within the level's own iteration" % norm(st.value),
+                  "the instance count stored for a level (%s) depends on %s, which is not assigned on every "
+                  "path of the current level's iteration: a level can inherit the count of the level "
+                  "processed before it" % (norm(st.value), ", ".join(stale) or "?"))
     # hop 1: __build_level passes tree["num"] to __build_component
     tree_param = bl.call_params[0]
     calls = [n for n in walk_no_nested(bl.node) if isinstance(n, ast.Call) and
@@ -260,6 +291,26 @@ def run(db: DB, rep: Report) -> None:
                   "hop:%s.super" % k.name, "%s forwards '%s' unchanged to super().__init__" % (k.name, p2),
                   "%s.__init__ does not forward its instance-count parameter unchanged to the base "
                   "constructor" % k.name)
+
+    # ---- M6: rate and count getters are pure functions of their arguments ---------
+    rep.rule("M6", "rate / count getters are pure and depend on their argument", 3)
+    from sa.rules.c05 import self_writes
+    getters = [db.func("teaal.ir.hardware.Hardware.get_frequency"),
+               db.func("teaal.ir.component.Component.get_num_instances"),
+               db.func("teaal.ir.component.MemoryComponent.get_bandwidth")]
+    for g in getters:
+        w = self_writes(db, g)
+        ok = not w
+        dep = True
+        if g.call_params:
+            # the result depends on the parameter (per-Einsum configuration)
+            rets = [n.value for n in walk_no_nested(g.node) if isinstance(n, ast.Return) and n.value is not None]
+            names, exprs = paths.backward_slice(g.node, {x for r in rets for x in paths.load_names(r)})
+            dep = g.call_params[0] in names or any(g.call_params[0] in paths.load_names(r) for r in rets)
+        rep.check("M6", ok and dep, db.loc(g.node), g.short, "pure:" + g.short,
+                  "%s writes no state%s" % (g.short, " and depends on '%s'" % g.call_params[0] if g.call_params else ""),
+                  "%s %s: a value computed for one Einsum / configuration would be reused for another" %
+                  (g.short, "writes self.%s" % w[0][0] if w else "does not depend on its argument"))
 
     # ---- M4 ------------------------------------------------------------------
     rep.rule("M4", "roll-up runs after every registering builder, on the last Einsum only", 2)
